@@ -37,6 +37,15 @@
 // a fresh node is started on the same database, and the script continues with the
 // next block. Everything runs inside one testing/synctest bubble; synctest.Wait()
 // is the quiescence detector between two stimuli.
+// What outlives the process is exactly what it had handed over before the stop
+// instant: the database (arbitrator log, channel.db side store, the nursery store -
+// one write transaction per IncubateOutputs, the in-memory nursery list is only a
+// mirror rebuilt from it at every start), transactions already in the mempool or
+// on chain. Sweeper inputs, notifier registrations and subscriptions die with the
+// process. This is self-checked, not assumed: survivors() is taken at the stop
+// instant and compared at the restart (any difference is reported as a harness
+// problem), and every call a dead process still attempts is parked and counted per
+// dependency (refuse).
 //
 // Unexported identifiers relied on: newBoltArbitratorLog, htlcSet/newHtlcSet (the
 // parameter type of the exported NewChannelArbitrator), and the package's test
@@ -268,7 +277,16 @@ type c13Obs struct {
 	Preimages    []string            `json:"preimages_added"`
 	Notified     int                 `json:"resolved_notifications"`
 	Anomalies    []string            `json:"anomalies,omitempty"`
-	Blocks       int                 `json:"blocks"`
+	// Stop-model self-check (never a verdict about lnd): Frozen counts the calls a
+	// dead process still attempted on the outside (database, harness-owned
+	// dependency) and that were parked instead of carried out; PostStop lists
+	// every difference between what outlives the process (database, mempool and
+	// chain, nursery store, witness cache, every recorded sink) at the stop
+	// instant and at the restart. It must stay empty.
+	Frozen   [3]int         `json:"parked_calls_of_dead_processes"` // writes, reads, dependency calls
+	ParkedBy map[string]int `json:"parked_dependency_calls,omitempty"`
+	PostStop []string `json:"effects_after_stop,omitempty"`
+	Blocks   int      `json:"blocks"`
 	Height       int32               `json:"height"`
 	MaxRank      map[string]int      `json:"-"`
 }
@@ -394,7 +412,7 @@ func (d *c13DB) update(label string, f func(tx walletdb.ReadWriteTx) error, rese
 	w.mu.Lock()
 	if d.gone() {
 		w.mu.Unlock()
-		w.freeze()
+		w.refuse(c13ParkedWrite, "")
 	}
 	err := d.DB.Update(f, reset)
 	hit := false
@@ -406,6 +424,7 @@ func (d *c13DB) update(label string, f func(tx walletdb.ReadWriteTx) error, rese
 		if w.crashAt > 0 && n >= w.crashAt {
 			w.crashed.Store(true)
 			hit = true
+			w.stopPrint = w.survivors()
 			w.logf("    *** node stops here (after commit #%d) ***", n)
 		}
 	case errors.Is(err, crashdb.ErrCrashed):
@@ -413,6 +432,7 @@ func (d *c13DB) update(label string, f func(tx walletdb.ReadWriteTx) error, rese
 		// error to lnd.
 		w.crashed.Store(true)
 		hit = true
+		w.obs.PostStop = c13ListAdd(w.obs.PostStop, "write-attempted-after-stop:"+label)
 	}
 	w.mu.Unlock()
 	if hit {
@@ -427,14 +447,14 @@ func (d *c13DB) Update(f func(tx walletdb.ReadWriteTx) error, reset func()) erro
 
 func (d *c13DB) View(f func(tx walletdb.ReadTx) error, reset func()) error {
 	if d.gone() {
-		d.w.freeze()
+		d.w.refuse(c13ParkedRead, "")
 	}
 	return d.DB.View(f, reset)
 }
 
 func (d *c13DB) BeginReadTx() (walletdb.ReadTx, error) {
 	if d.gone() {
-		d.w.freeze()
+		d.w.refuse(c13ParkedRead, "")
 	}
 	return d.DB.BeginReadTx()
 }
@@ -554,6 +574,11 @@ type c13World struct {
 	delayKey *btcec.PublicKey // our delay base point (taproot: tells our commitment from theirs)
 	payKey   *btcec.PublicKey // our payment base point
 	nursery  []c13Kid         // legacy channels: what was handed to the utxo nursery (durable)
+
+	stopPrint []string     // survivors() at the stop instant
+	frozen    [3]atomic.Int64 // calls of dead processes that were parked, by kind
+	parkMu    sync.Mutex
+	parkedBy  map[string]int // parked dependency calls by dependency
 }
 
 // c13Kid is one HTLC of our own commitment handed to the utxo nursery.
@@ -619,6 +644,53 @@ func (w *c13World) freeze() {
 	runtime.Goexit()
 }
 
+// refuse parks a goroutine of a dead process at the call it was about to make on
+// the outside: the call is not carried out, only counted.
+func (w *c13World) refuse(kind int, name string) {
+	w.frozen[kind].Add(1)
+	if kind == c13ParkedDep {
+		// Which dependency: the given name, or the harness method that called enter().
+		if pc, _, _, ok := runtime.Caller(3); ok && name == "" {
+			name = runtime.FuncForPC(pc).Name()
+			name = name[strings.LastIndex(name, ".")+1:]
+		}
+		w.parkMu.Lock()
+		w.parkedBy[name]++
+		w.parkMu.Unlock()
+	}
+	w.freeze()
+}
+
+const (
+	c13ParkedWrite = iota // a write transaction
+	c13ParkedRead         // a read transaction
+	c13ParkedDep          // a call into a harness-owned dependency
+)
+
+// survivors renders everything that outlives a process: the database (number of
+// committed write transactions, which covers the arbitrator log, the channel.db
+// side store and the nursery store), the nursery's and the witness cache's
+// in-memory mirrors, mempool and chain, and every sink the oracle reads. The
+// world lock must be held or the node quiescent.
+func (w *c13World) survivors() []string {
+	out := []string{
+		fmt.Sprintf("commits=%d", w.cdb.Commits()),
+		fmt.Sprintf("nursery=%v", w.nursery),
+		fmt.Sprintf("witness-cache=%d", len(w.knownPre)),
+		fmt.Sprintf("chain=%d spent=%d", len(w.chain), len(w.spent)),
+		fmt.Sprintf("published=%v", w.obs.Published),
+		fmt.Sprintf("offered=%v", w.obs.Offered),
+		fmt.Sprintf("offer-content=%v", w.obs.OfferContent),
+		fmt.Sprintf("notified=%d", w.obs.Notified),
+		fmt.Sprintf("anomalies=%v", w.obs.Anomalies),
+	}
+	var mp []string
+	for _, m := range w.mempool {
+		mp = append(mp, m.tx.TxHash().String()[:8])
+	}
+	return append(out, fmt.Sprintf("mempool=%v", mp))
+}
+
 func c13Hash(s string) chainhash.Hash { return chainhash.Hash(sha256.Sum256([]byte(s))) }
 
 func c13P2WSH(tag string) []byte {
@@ -672,6 +744,7 @@ func newC13World(scn c13Scn, verbose bool) (*c13World, error) {
 		spent:    map[wire.OutPoint]*c13Spend{},
 		knownPre: map[lntypes.Hash]lntypes.Preimage{},
 		lastSnap: map[string]int{},
+		parkedBy: map[string]int{},
 		verbose:  verbose,
 	}
 	w.obs = c13Obs{Scn: scn.Name, Msgs: map[string][]string{}, Finals: map[string][]string{}, MaxRank: map[string]int{},
@@ -1403,11 +1476,14 @@ func (w *c13World) next() *c13Delivery {
 
 // enter is the first statement of every harness-owned dependency: it takes the
 // world lock, or never returns if the calling process is dead.
-func (n *c13Node) enter() {
+func (n *c13Node) enter() { n.enterAs("") }
+
+// enterAs is enter for a dependency that is a closure (name: the config field).
+func (n *c13Node) enterAs(name string) {
 	n.w.mu.Lock()
 	if n.dead.Load() || n.w.crashed.Load() {
 		n.w.mu.Unlock()
-		n.w.freeze()
+		n.w.refuse(c13ParkedDep, name)
 	}
 }
 
@@ -1718,7 +1794,7 @@ func (w *c13World) config(n *c13Node) ChannelArbitratorConfig {
 		IncomingBroadcastDelta: 5,
 		OutgoingBroadcastDelta: 5,
 		PublishTx: func(tx *wire.MsgTx, _ string) error {
-			n.enter()
+			n.enterAs("PublishTx")
 			defer n.leave()
 			w.obs.Published = c13ListAdd(w.obs.Published, w.tagOf(tx.TxHash()))
 			w.logf("    PublishTx %s", w.tagOf(tx.TxHash()))
@@ -1727,7 +1803,7 @@ func (w *c13World) config(n *c13Node) ChannelArbitratorConfig {
 		},
 		DeliverResolutionMsg: func(msgs ...ResolutionMsg) error {
 			var evs []c13Event
-			n.enter()
+			n.enterAs("DeliverResolutionMsg")
 			for _, m := range msgs {
 				w.checkOffered("DeliverResolutionMsg", m.HtlcIndex)
 				if m.PreImage != nil {
@@ -1750,7 +1826,7 @@ func (w *c13World) config(n *c13Node) ChannelArbitratorConfig {
 		IncubateOutputs: func(_ wire.OutPoint, out fn.Option[lnwallet.OutgoingHtlcResolution],
 			in fn.Option[lnwallet.IncomingHtlcResolution], _ uint32, _ fn.Option[int32], _ ...IncubateOption) error {
 
-			n.enter()
+			n.enterAs("IncubateOutputs")
 			if !w.scn.legacy() {
 				w.anomaly("IncubateOutputs-called-on-a-non-legacy-channel")
 				n.leave()
@@ -1778,7 +1854,7 @@ func (w *c13World) config(n *c13Node) ChannelArbitratorConfig {
 			if err := n.write("NurseryStore.Incubate", evs...); err != nil {
 				return err
 			}
-			n.enter()
+			n.enterAs("IncubateOutputs")
 			for _, ev := range evs {
 				w.incubate(int(ev.Idx), ev.Settle)
 			}
@@ -1790,14 +1866,14 @@ func (w *c13World) config(n *c13Node) ChannelArbitratorConfig {
 		Registry:       &c13RegistryImpl{n: n},
 		OnionProcessor: &c13Onion{n: n, inner: &mockOnionProcessor{}},
 		IsForwardedHTLC: func(_ lnwire.ShortChannelID, idx uint64) bool {
-			n.enter()
+			n.enterAs("IsForwardedHTLC")
 			defer n.leave()
 			w.checkOffered("IsForwardedHTLC", idx)
 			return true
 		},
 		Clock: clock.NewTestClock(time.Unix(1_700_000_000, 0)),
 		SubscribeBreachComplete: func(_ *wire.OutPoint, c chan struct{}) (bool, error) {
-			n.enter()
+			n.enterAs("SubscribeBreachComplete")
 			defer n.leave()
 			if w.justice {
 				return true, nil
@@ -1806,7 +1882,7 @@ func (w *c13World) config(n *c13Node) ChannelArbitratorConfig {
 			return false, nil
 		},
 		PutFinalHtlcOutcome: func(_ lnwire.ShortChannelID, id uint64, settled bool) error {
-			n.enter()
+			n.enterAs("PutFinalHtlcOutcome")
 			w.checkReceived("PutFinalHtlcOutcome", id)
 			n.leave()
 			return n.write("PutFinalHtlcOutcome", c13Event{K: "final", Idx: id, Settle: settled})
@@ -1822,7 +1898,7 @@ func (w *c13World) config(n *c13Node) ChannelArbitratorConfig {
 		ShortChanID:           lnwire.NewShortChanIDFromInt(13),
 		ChainArbitratorConfig: chainCfg,
 		NotifyChannelResolved: func() {
-			n.enter()
+			n.enterAs("NotifyChannelResolved")
 			w.obs.Notified++
 			// The statement's "marked fully resolved only after all contracts are
 			// resolved", judged on what is on disk at this very moment.
@@ -1850,7 +1926,7 @@ func (w *c13World) config(n *c13Node) ChannelArbitratorConfig {
 			return n.write("PutResolverReport", ev)
 		},
 		FetchHistoricalChannel: func() (*chanstate.OpenChannel, error) {
-			n.enter()
+			n.enterAs("FetchHistoricalChannel")
 			defer n.leave()
 			st := &chanstate.OpenChannel{
 				ChanType:        w.scn.chanType(),
@@ -1865,7 +1941,7 @@ func (w *c13World) config(n *c13Node) ChannelArbitratorConfig {
 			return st, nil
 		},
 		FindOutgoingHTLCDeadline: func(h channeldb.HTLC) fn.Option[int32] {
-			n.enter()
+			n.enterAs("FindOutgoingHTLCDeadline")
 			defer n.leave()
 			w.checkOffered("FindOutgoingHTLCDeadline", h.HtlcIndex)
 			w.checkHash("FindOutgoingHTLCDeadline", h.RHash)
@@ -2068,13 +2144,13 @@ func (w *c13World) startNode() {
 		cfg.ChainEvents = &ChainEventSubscription{}
 		cfg.Channel = &c13Channel{n: n, forbidden: true}
 		cfg.MarkChannelClosed = func(*channeldb.ChannelCloseSummary, ...channeldb.ChannelStatus) error {
-			n.enter()
+			n.enterAs("MarkChannelClosed")
 			defer n.leave()
 			w.anomaly("MarkChannelClosed-on-pending-close-arbitrator(nil func in lnd)")
 			return errors.New("c13: channel already closed")
 		}
 		cfg.MarkCommitmentBroadcasted = func(*wire.MsgTx, lntypes.ChannelParty) error {
-			n.enter()
+			n.enterAs("MarkCommitmentBroadcasted")
 			defer n.leave()
 			w.anomaly("MarkCommitmentBroadcasted-on-pending-close-arbitrator(nil func in lnd)")
 			return errors.New("c13: channel already closed")
@@ -2096,7 +2172,7 @@ func (w *c13World) startNode() {
 			return n.write("Channel.MarkCommitmentBroadcasted", c13Event{K: "bcast"})
 		}
 		cfg.MarkChannelClosed = func(s *channeldb.ChannelCloseSummary, _ ...channeldb.ChannelStatus) error {
-			n.enter()
+			n.enterAs("MarkChannelClosed")
 			already := n.closedMem
 			if already {
 				w.anomaly("MarkChannelClosed-twice")
@@ -2108,7 +2184,7 @@ func (w *c13World) startNode() {
 			err := n.write("Channel.CloseChannel("+c13CloseName(s.CloseType)+")",
 				c13Event{K: "closed", Type: uint8(s.CloseType), Height: s.CloseHeight})
 			if err == nil {
-				n.enter()
+				n.enterAs("MarkChannelClosed")
 				n.closedMem = true
 				n.leave()
 			}
@@ -2172,11 +2248,11 @@ func (n *c13Node) chainArbLoop() {
 		}
 		_ = n.arb.Stop()
 		if err := n.log.WipeHistory(); err != nil {
-			n.enter()
+			n.enterAs("ChainArbitrator.ResolveContract")
 			n.w.anomaly("WipeHistory:" + err.Error())
 			n.leave()
 		}
-		n.enter()
+		n.enterAs("ChainArbitrator.ResolveContract")
 		n.idle = true
 		n.leave()
 	}
@@ -2377,6 +2453,17 @@ func (w *c13World) recover(plan *[]int64) {
 			ci.K = abs - w.lastBase
 		}
 		w.mu.Lock()
+		// Stop-model self-check: between the stop instant and this restart nothing
+		// that outlives the process may have changed.
+		if w.stopPrint != nil {
+			now := w.survivors()
+			for i := range now {
+				if now[i] != w.stopPrint[i] {
+					w.obs.PostStop = c13ListAdd(w.obs.PostStop, fmt.Sprintf("after commit #%d (%s): at stop {%s}, at restart {%s}", abs, label, w.stopPrint[i], now[i]))
+				}
+			}
+			w.stopPrint = nil
+		}
 		w.cdb.Disarm()
 		w.crashAt = 0
 		w.crashed.Store(false)
